@@ -771,7 +771,7 @@ func TestC26(t *testing.T) {
 		}
 	}
 	rng := r.Rand("scenarios")
-	n := r.N(3000, 80000)
+	n := r.N(3000, 40000)
 	for i := 0; i < n && hangs < 3 && r.Violations() < 20; i++ {
 		c := c26Gen(rng)
 		if i%10 == 9 {
